@@ -78,6 +78,14 @@ def _x_expr_cases(rng, n, tier):
         exp = {"name": "t", "version": "1.0", "target": {"name": None, "options": []}, "type": {"name": None, "options": []},
                "operations": [{"op": "G", "modes": [0], "args": [val], "kwargs": []}], "variables": [["n", 3], ["z", 0]]}
         yield {"class": "pow/int-zero-exponent-stays-int", "input": {"script": script, "expected": exp, "expression": text}}
+    for i in range(max(2, n // 6)):
+        # wave 6 (C03f_2): the initialiser of a redeclaration is evaluated with the variable's CURRENT value
+        a, m = rng.randint(2, 9), rng.randint(2, 5)
+        ty, first, text, val = [("int", str(a), "x*%d+1" % m, a * m + 1), ("float", "%d.5" % a, "x*2-x", a + 0.5), ("int", str(a), "x**2-x", a * a - a)][i % 3]
+        script = "name t\nversion 1.0\n\n%s x = %s\n%s x = %s\nG(x) | 0\n" % (ty, first, ty, text)
+        exp = {"name": "t", "version": "1.0", "target": {"name": None, "options": []}, "type": {"name": None, "options": []},
+               "operations": [{"op": "G", "modes": [0], "args": [val], "kwargs": []}], "variables": [["x", val]]}
+        yield {"class": "redeclaration-in-terms-of-itself", "input": {"script": script, "expected": exp, "expression": text}}
 
 
 base.register(base.Family("expr_value_x", ["C03"], _x_expr_cases, FL.check_script, weight=0.1,
@@ -147,6 +155,14 @@ def _x_rt_cases(rng, n, tier):
         nm = ["p7", "p0", "p12"][i % 3]
         yield {"class": "tdm-string-looks-like-p-name", "input": {"script": "name t\nversion 1.0\ntype tdm (temporal_modes=2)\n\nint array p1 =\n    1, 2\n\n"
                                                                       "G(\"%s\", p1, tag=\"%s\") | 0\n" % (nm, nm)}}
+
+
+    for i in range(max(2, n // 8)):
+        # wave 6 (C01f_1): outside tdm programs an array called p<digits> is an ordinary variable and a STRING equal to its name stays a string
+        nm = ["p0", "p3", "p10"][i % 3]
+        ty = ["", "type simulation\n"][i % 2]
+        yield {"class": "non-tdm-string-equals-name-of-array-called-like-p-array",
+               "input": {"script": "name t\nversion 1.0\n%s\nint array %s =\n    1, 2\n\nG(\"%s\", %s, tag=\"%s\", l=[\"%s\", 1]) | 0\n" % (ty, nm, nm, nm, nm, nm)}}
 
 
 def _x_rt_check(case):
@@ -1232,6 +1248,16 @@ def _y_hist_build(rng, variant):
         if rng.random() < 0.3:
             steps.append({"files": {d + inc: lib1}, "path": d + "main.xbb", "how": style})
         return "include-file-rewritten/" + how2, steps
+    if variant == "failed-load-then-file-load":
+        # wave 6 (C12f_1): what a load that failed during the walk left behind must not reach a later load of a FILE (load(path) has its own entry path)
+        bad = "name bad\nversion 1.0\n\nint n = 7\nfloat w = 0.25\nSgate({alpha}, n) | 0\nDgate(%s) | 1\n" % rng.choice(["zz", "w*undefined_name", "A[3]"])
+        plain = "name plain\nversion 1.0\n\nVac | 0\nSgate(0.5) | 1\n"
+        opts = "name opts\nversion 1.0\ntarget somedevice (shots=%s)\n\nVac | 0\n" % rng.choice(["n", "w"])
+        how = rng.choice(["abs", "rel"])
+        steps = [{"text": bad}, {"files": {"plain.xbb": plain, "opts.xbb": opts}, "cwd": ".", "path": "plain.xbb", "how": how}, {"path": "opts.xbb", "how": how}]
+        if rng.random() < 0.5:
+            steps.insert(1, {"files": {"bad.xbb": bad}, "cwd": ".", "path": "bad.xbb", "how": how})
+        return "failed-load-then-file-load", steps
     if variant == "same-relative-names-in-two-directories":
         libs = [_y_lib(rng, nm, k, shift=s) for s in (0, 2)]
         dirs = rng.sample(["proj_one", "proj_two", "x/y", "other"], 2)
@@ -1276,7 +1302,7 @@ def _y_hist_build(rng, variant):
     return "option-less-target-or-type-modified-between", steps
 
 
-_Y_HIST_VARIANTS = ["include-file-rewritten", "same-relative-names-in-two-directories", "operation-named-like-earlier-include", "same-script-twice-modified-between",
+_Y_HIST_VARIANTS = ["include-file-rewritten", "failed-load-then-file-load", "same-relative-names-in-two-directories", "operation-named-like-earlier-include", "same-script-twice-modified-between",
                     "option-less-declarations", "include-file-rewritten", "same-relative-names-in-two-directories"]
 
 
